@@ -378,8 +378,12 @@ def main():
     # ---- census obligations
     for c in census:
         fn_total += 1
-        if c['found'] == c['expected']:
+        if c.get('ok', c['found'] == c['expected']):
             fn_ok += 1
+        elif c.get('soft'):
+            noverdict.append('unit %s: structural assumption %s no longer matches the source (`%s` occurs %d times in %s, the unit '
+                             'was written for %s %d): the proof for this property cannot be trusted as it stands'
+                             % (c['unit'], c['label'], c['pattern'], c['found'], c['file'], c.get('op', '=='), c['expected']))
         else:
             violations.append({'obligation': '%s::census::%s' % (c['unit'], c['label']), 'backend': 'extractor',
                                'kind': 'census', 'message': 'call-site census changed: `%s` occurs %d times in %s, contract assumes %d'
@@ -446,7 +450,7 @@ def main():
             'trusted_base': sorted(assumptions) + STANDING_ASSUMPTIONS + cfg.get('assumptions', []),
             'explanation': cfg.get('explanation', ''),
             'verus': {'units': [r['unit'] for r in verus_results], 'functions_checked': fn_total - len(census),
-                      'functions_verified': fn_ok - sum(1 for c in census if c['found'] == c['expected']),
+                      'functions_verified': fn_ok - sum(1 for c in census if c.get('ok', c['found'] == c['expected'])),
                       'smt_time_ms': smt_ms, 'vacuity_twins_rejected': vac_checked,
                       'wall_s': [r['wall_s'] for r in verus_results]},
             'kani': {'harnesses': {h: {k: kani_res[h].get(k) for k in ('status', 'checks', 'time_s')} for h in harnesses if h in kani_res},
